@@ -441,29 +441,25 @@ func determineSectorSize(f io.ReaderAt) (int, error) {
 		extraBytes        = 2 // between magic1 and magic2
 		systemAreaSectors = 16
 	)
-	// We can detect sector size for 1 read(at) system call
-	// to do this we read amount of data that equals to difference between maximum and minimum sector size
-	// plus length of magic1 and magic2 plus two bytes between them.
-	// After successful reading we just try to locate magic1 or magic2 by offsets determined by
-	// subtraction between probed sector size and minimal sector size.
-	minMaxDifference := sectorSizes[len(sectorSizes)-1] - sectorSizes[0]
-	buf := make([]byte, minMaxDifference+len(magic1)+extraBytes+len(magic2))
-
-	n, err := f.ReadAt(buf, psxPrefixSize+systemAreaSectors*int64(sectorSizes[0]))
-	if err != nil {
-		return -1, fmt.Errorf("read failed: %w", err)
-	}
-	if n != len(buf) {
-		return -1, fmt.Errorf("read failed: expected %d bytes, got %d", len(buf), n)
-	}
+	// The volume descriptor lives in sector 16, so for every candidate sector size we look at the
+	// user data of that sector (which starts psxPrefixSize bytes into the raw sector) for magic1
+	// or, two bytes after it, magic2.
+	buf := make([]byte, len(magic1)+extraBytes+len(magic2))
 
 	for _, sectorSize := range sectorSizes {
-		idxMagic1 := sectorSize - sectorSizes[0]
-		if string(buf[idxMagic1:idxMagic1+len(magic1)]) == magic1 {
+		n, err := f.ReadAt(buf, psxPrefixSize+systemAreaSectors*int64(sectorSize))
+		if err != nil {
+			return -1, fmt.Errorf("read failed: %w", err)
+		}
+		if n != len(buf) {
+			return -1, fmt.Errorf("read failed: expected %d bytes, got %d", len(buf), n)
+		}
+
+		if string(buf[:len(magic1)]) == magic1 {
 			return sectorSize, nil
 		}
 
-		idxMagic2 := idxMagic1 + len(magic1) + extraBytes
+		idxMagic2 := len(magic1) + extraBytes
 		if string(buf[idxMagic2:idxMagic2+len(magic2)]) == magic2 {
 			return sectorSize, nil
 		}
